@@ -11,6 +11,9 @@ procedure for conformance; the theorems of Props/C10.lean are about the referenc
 oracle(): clauses checked on the real parser alone (metamorphic, no reference involved).
 """
 import math
+import os
+import shutil
+import tempfile
 import warnings
 from fractions import Fraction
 
@@ -759,6 +762,59 @@ def canon_region(r):
             'incl': bool(int(inc)) if not isinstance(inc, str) else inc, 'view': real_view(r, kind)}
 
 
+def read_real(text, tag):
+    """the FILE path: write `text` to a file and `Regions.read` it.  Which spelling of the call is used is a function of
+    the text (no randomness here): extension '' / .txt (format= required) / .reg / .ds9 (format= given or identified),
+    str or pathlib.Path, and -- second read -- CRLF line ends or a toggled final newline."""
+    import hashlib
+    import pathlib
+    import shutil
+    import tempfile
+    from regions import Regions
+    h = int(hashlib.sha1((tag + text).encode()).hexdigest()[:8], 16)
+    ext = ['', '.txt', '.reg', '.ds9', '.reg', '.ds9'][h % 6]
+    with_format = ext in ('', '.txt') or (h >> 4) % 2 == 0
+    as_path = (h >> 5) % 2 == 0
+    if as_path and not text.startswith('# Region file format: DS9'):
+        # is_ds9() looks at the extension only for `str` paths; a pathlib.Path is identified by the signature line alone
+        # (reported to the coordinator as a candidate finding of the registry, not of the DS9 reading conventions)
+        with_format = True
+    base = os.environ.get('VERIF_C10_TMP')
+    own = None
+    if not base or not os.path.isdir(base):
+        base = own = tempfile.mkdtemp(prefix='verif_c10_')
+    out = {}
+    try:
+        for name in ('same', 'eol'):
+            t = text
+            how = 'as is'
+            if name == 'eol':
+                if (h >> 6) % 2 == 0 and '\r' not in t:
+                    t, how = t.replace('\n', '\r\n'), 'CRLF'
+                elif t.endswith('\n'):
+                    t, how = t[:-1], 'final newline removed'
+                else:
+                    t, how = t + '\n', 'final newline added'
+            fn = os.path.join(base, f'c10_{os.getpid()}_{h:08x}_{name}{ext}')
+            with open(fn, 'w', newline='') as f:
+                f.write(t)
+            spell = f"Regions.read({'Path' if as_path else 'str'}('x{ext}'){', format=' + repr('ds9') if with_format else ''}) [{how}]"
+            with warnings.catch_warnings():
+                warnings.simplefilter('ignore')
+                try:
+                    regs = Regions.read(pathlib.Path(fn) if as_path else fn, **({'format': 'ds9'} if with_format else {}))
+                    res = {'regions': [canon_region(r) for r in regs]}
+                except Exception as e:
+                    res = {'exc': f'{type(e).__name__}: {e}'[:300]}
+            os.unlink(fn)
+            res['spell'] = spell
+            out[name] = res
+    finally:
+        if own:
+            shutil.rmtree(own, ignore_errors=True)
+    return out
+
+
 def parse_real(text):
     from regions import Regions
     with warnings.catch_warnings(record=True) as w:
@@ -879,6 +935,9 @@ class Check(PropertyCheck):
             '60% of region lines use dyadic decimals (compared EXACTLY), the rest general decimals / sexagesimal / radians '
             '(1e-9 relative). Non-trivial = the reference yields at least one region.')
     assumptions = [
+        'the file path is exercised for every case: the text is written to a temp file (no extension / .txt with format=, .reg / .ds9 '
+        'with or without format=, str or pathlib.Path) and Regions.read must give exactly the canonical result of Regions.parse; a second '
+        'read uses CRLF line ends or a toggled final newline (the unchanged reader treats them alike)',
         'tokenisation: the token stream the reference interprets is rendered by harness/c10.py from the same structured statement '
         'as the text given to the real parser, AND is checked on every file to equal Spec.Ds9.lex(text), the executable Lean lexer '
         '(driver reply lex_ok); there are no theorems about the lexer itself',
@@ -913,7 +972,17 @@ class Check(PropertyCheck):
     ]
 
     # ---------------------------------------------------------------- generation
+    def extra_checks(self, rng, tier):
+        # the run's temp directory (files are unlinked right after each read)
+        d = os.environ.pop('VERIF_C10_TMP', None)
+        if d and os.path.basename(d).startswith('verif_c10_'):
+            shutil.rmtree(d, ignore_errors=True)
+        return 0, [], {}
+
     def generate(self, rng, tier):
+        if not os.environ.get('VERIF_C10_TMP'):
+            # one temp directory per run for the file-path reads (inherited by the worker processes)
+            os.environ['VERIF_C10_TMP'] = tempfile.mkdtemp(prefix='verif_c10_')
         n = 2000 if tier == 'quick' else 60000
         g = Gen(rng, tier)
         cases = [g.file() for _ in range(n)]
@@ -941,6 +1010,7 @@ class Check(PropertyCheck):
         text = render_text(case['lines'], case['join'], case['final_nl'])
         out = parse_real(text)
         out['text'] = text
+        out['file'] = read_real(text, 'f')
         if 'exc' in out:
             return out
         V = {}
@@ -1123,6 +1193,15 @@ class Check(PropertyCheck):
 
         def bad(kind, detail, **kw):
             V.append(dict(kind=kind, detail=f'{detail} :: {text!r}', **kw))
+        # the FILE reader must give exactly what the parser gives for the same text (same regions or same exception)
+        for name, fr in (real.get('file') or {}).items():
+            if ('exc' in real) != ('exc' in fr) or ('exc' in real and real['exc'] != fr['exc']) \
+                    or ('exc' not in real and fr['regions'] != real['regions']):
+                got = fr.get('exc') or f"{len(fr['regions'])} regions"
+                exp = real.get('exc') or f"{len(real['regions'])} regions"
+                n = next((i for i, (a, b) in enumerate(zip(fr.get('regions', []), real.get('regions', []))) if a != b), None)
+                bad('file_read_differs_from_parse', f"{fr['spell']} gives {got}, Regions.parse(text, format='ds9') gives {exp}"
+                                                    + (f' (first difference at region {n})' if n is not None else ''))
         if 'exc' in real:
             if not any(v['kind'] == 'exception' for v in V):
                 bad('exception', real['exc'])
